@@ -21,8 +21,8 @@ SEEDED = os.path.join(ROOT, "seeded")
 
 
 def cmd_import(a):
-    src = f"/tmp/wt/{a.id}-out"
-    d = os.path.join(SEEDED, f"{a.id}-{a.k}")
+    src = a.src or f"/tmp/wt/{a.id}-out"
+    d = os.path.join(SEEDED, f"{a.id}-{a.as_k or a.k}")
     os.makedirs(d, exist_ok=True)
     shutil.copy(f"{src}/mut{a.k}.diff", f"{d}/patch.diff")
     shutil.copy(f"{src}/demo{a.k}.py", f"{d}/demo.py")
@@ -32,7 +32,7 @@ def cmd_import(a):
     except Exception:
         pass
     out = {
-        "id": f"{a.id}-{a.k}",
+        "id": f"{a.id}-{a.as_k or a.k}",
         "property": a.id,
         "summary": meta.get("summary", ""),
         "needs": meta.get("needs", ""),
@@ -113,6 +113,8 @@ def main():
     p.add_argument("k")
     p.add_argument("--result")
     p.add_argument("--extra")
+    p.add_argument("--src", help="directory holding mut<K>.diff, demo<K>.py, meta<K>.json (default /tmp/wt/<ID>-out)")
+    p.add_argument("--as-k", dest="as_k", help="letter to store the change under (second-round changes: C, D)")
     p = sub.add_parser("eval")
     p.add_argument("dirs", nargs="*")
     p.add_argument("--tier", default="quick")
